@@ -73,7 +73,7 @@ def scenario(e3, n_inst, n_read, name):
     ]
     if len(readers) >= 2:
         a, b = readers[0], readers[1]
-        last_a = sc.leaf_ite(a, lambda l: sc.clock[l.last_event.id], z3.IntVal(0))
+        last_a = sc.leaf_ite(a, lambda l: sc.clock[l.last_events[0].id], z3.IntVal(0))
         first_b = min(e.id for e in eng.events if e.tid == b)
         props.append(("once_seen_always_seen", "an emission that starts after another one was dispatched to the recorder falls back to the no-op recorder or another recorder",
                       z3.And(some(a), last_a < sc.clock[first_b], z3.Or(z3.Not(some(b)), ptr(b) != ptr(a))), None))
